@@ -6,26 +6,29 @@
    The data-transfer clause is proved over Agree/DataModel.v (Conn.Write / writeRecordLocked / Conn.Read) relative
    to the per-record round trip of the record protection (premise open (seal p) = p, C07's subject), and
    checked on real connections by the driver. *)
+From Coq Require Import String.
 From Coq Require Import List NArith Arith Bool Lia.
 From GmsmVerif Require Import Lib.Outcome Gen.TLSSuites Resume.ResumeModel
   Agree.AgreeModel Agree.AgreeSpec Agree.KeyModel Agree.AgreeProofs Agree.AgreeSweep
-  Agree.DataModel Agree.DataProofs SM3.HMACSpec Agree.WireSpec Agree.PrfSM3.
+  Agree.DataModel Agree.DataProofs SM3.HMACSpec Agree.WireSpec Agree.PrfSM3 Rec.RecordModel Agree.ConstTie.
 Import ListNotations.
 Close Scope N_scope.
+Close Scope string_scope.
 
 (* 1. For every configuration of the product
-        server mode {GMSSL, auto, TLS} x client kind {GM, TLS 1.0, 1.1, 1.2} x 11 client suite lists x 6 server
+        server mode {GMSSL, auto, TLS} x client kind {GM, TLS 1.0, 1.1, 1.2} x 11 client suite lists x 7 server
         suite lists (drawn from the generated tables: nil, single suites, both orders, ECDHE-SM2, ECDSA-only,
         TLS 1.2-only, mixed) x server preference x ClientAuth (5) x client certificate {none, trusted, forged
         issuer} x certificates {static, callbacks} x tickets {on, off} x ClientCAs {holds the CAs, empty}
-                                                                                              (190 080 in all)
+                                                                                              (221 760 in all)
       running the client model against the server model over a faithful channel either completes on both
       sides - with the same version, suite, master-secret term, exported-keying-material term, key-block
       term, and each side reporting the other's certificates - or fails on both sides; it completes exactly
       when policy_allows.  No run blocks, none completes on one side only.  When it completes, a second and a
       third connection from the same client session cache (connection model of Resume/ResumeModel.v) complete
       with the same version, suite and peer identities - with tickets on as resumptions carrying the first
-      connection's master secret, with tickets off as full handshakes (reconnect_ok). *)
+      connection's master secret, with tickets off as full handshakes (reconnect_ok).  The negotiated suite is
+      expected_suite: see C06_suite_preference. *)
 Theorem C06_honest_run_agrees :
   forall a, in_product a ->
     match honest_run a with
@@ -35,11 +38,25 @@ Theorem C06_honest_run_agrees :
       /\ res_ms rc = res_ms rs /\ res_ekm rc = res_ekm rs /\ res_keys rc = res_keys rs
       /\ res_peer rc = expected_server_certs a /\ res_peer rs = expected_client_certs a
       /\ reconnect_ok a rc = true
+      /\ expected_suite a = Some (res_suite rc)
     | (Errored, Errored) => policy_allows a = false
     | _ => False
     end.
 Proof. intros a H. exact (agree_check_sound a (sweep_forall agree_check sweep_agree_check a H)). Qed.
 Print Assumptions C06_honest_run_agrees.
+
+(* ... where expected_suite is the first entry of the preferring side's list - the server's configured (or
+   default) list under PreferServerCipherSuites, otherwise the client's - that the other side lists as well
+   and that both can run (family table, no ECDHE-SM2, RSA server certificate, TLS 1.2-only suites at 1.2) *)
+Theorem C06_suite_preference :
+  forall a s,
+    expected_suite a = Some s <->
+    exists before after,
+      pref_list a = before ++ s :: after
+      /\ acceptable a s = true
+      /\ Forall (fun x => acceptable a x = false) before.
+Proof. intros a s. unfold expected_suite. apply find_first. Qed.
+Print Assumptions C06_suite_preference.
 
 (* 2. Key block: for every suite row of the two generated tables (indeed for all lengths) the PRF output is
    cut as clientMAC | serverMAC | clientKey | serverKey | clientIV | serverIV with the row's lengths ... *)
@@ -87,8 +104,8 @@ Theorem C06_decoder_prf_is_spec :
 Proof. exact gm_prf_is_spec. Qed.
 Print Assumptions C06_decoder_prf_is_spec.
 
-(* 4. Application data: for every sequence of Write calls (any sizes, including empty ones), with or without
-   the 1/n-1 split, every record-size schedule between 1 and maxPlaintext (dynamic record sizing), every
+(* 4. Application data: for every sequence of Write calls (any sizes, including empty ones), whatever decides
+   the 1/n-1 split (in particular write_splits, the source's condition: C06_split_condition), every record-size schedule between 1 and maxPlaintext (dynamic record sizing), every
    starting sequence number and every list of Read buffer sizes >= 1: nothing panics or hangs, every
    fragment is non-empty and at most maxPlaintext long, what the reader has received is a prefix of what
    was written, and it is all of it once enough reads were made.  Premise: a record sealed under a sequence
@@ -131,10 +148,68 @@ Proof.
 Qed.
 Print Assumptions C06_key_derivation.
 
+(* 5. The constants and version tests of the models are the source's (Gen/TLSSuites.v is regenerated from
+   /repo on every run, so these are re-proved against the current tree). *)
+(* Conn.Write splits off the first byte exactly when len(b) > 1, c.vers <= VersionTLS10 and the cipher is a
+   block mode (operators and bounds read from the condition in the source); VersionGMSSL is numerically
+   below VersionTLS10, so GMSSL SM4-CBC connections split as well *)
+Theorem C06_split_condition :
+  forall vers block n,
+    write_splits vers block n = ((1 <? N.of_nat n)%N && (vers <=? gen_VersionTLS10)%N && block)%bool
+    /\ write_splits gen_VersionGMSSL true n = (1 <? N.of_nat n)%N.
+Proof. intros. split; [apply split_condition|apply split_gmssl_cbc]. Qed.
+Print Assumptions C06_split_condition.
+
+(* master secret 48 bytes, verify_data 12 bytes, randoms 32 bytes, fragments up to 2^14 bytes, 5-byte record
+   header, 4-byte GCM salt, the four PRF labels (as strings and as the byte lists the model feeds to the PRF) *)
+Theorem C06_source_constants :
+  (gen_masterSecretLength = 48%N /\ gen_finishedVerifyLength = 12%N /\ gen_tlsRandomLength = 32%N
+   /\ gen_maxPlaintext = (2 ^ 14)%N /\ gen_recordHeaderLen = 5%N /\ gen_noncePrefixLength = 4%N
+   /\ gen_masterSecretLabel = "master secret"%string /\ gen_keyExpansionLabel = "key expansion"%string
+   /\ gen_clientFinishedLabel = "client finished"%string /\ gen_serverFinishedLabel = "server finished"%string
+   /\ gen_VersionGMSSL = 0x0101%N)
+  /\ (gen_masterSecretLabel_bytes = ascii_bytes gen_masterSecretLabel
+      /\ gen_keyExpansionLabel_bytes = ascii_bytes gen_keyExpansionLabel
+      /\ gen_clientFinishedLabel_bytes = ascii_bytes gen_clientFinishedLabel
+      /\ gen_serverFinishedLabel_bytes = ascii_bytes gen_serverFinishedLabel).
+Proof. split; [exact protocol_constants|exact label_bytes_tie]. Qed.
+Print Assumptions C06_source_constants.
+
+(* the record-layer model used by the independent decoder (Rec/RecordModel.v) writes down the same record
+   header length, fragment limits, versions, content types and record-sizing constants as the source, and its
+   explicit-IV test is the source's (version >= VersionTLS11 or version == VersionGMSSL) *)
+Theorem C06_record_constants_tie :
+  (N.of_nat RecordModel.recordHeaderLen = gen_recordHeaderLen
+   /\ N.of_nat RecordModel.maxPlaintext = gen_maxPlaintext
+   /\ N.of_nat RecordModel.maxCiphertext = gen_maxCiphertext
+   /\ N.of_nat RecordModel.maxWarnAlertCount = gen_maxWarnAlertCount
+   /\ RecordModel.VersionTLS10 = gen_VersionTLS10 /\ RecordModel.VersionTLS11 = gen_VersionTLS11
+   /\ RecordModel.VersionGMSSL = gen_VersionGMSSL
+   /\ RecordModel.recordTypeChangeCipherSpec = gen_recordTypeChangeCipherSpec
+   /\ RecordModel.recordTypeAlert = gen_recordTypeAlert
+   /\ RecordModel.recordTypeHandshake = gen_recordTypeHandshake
+   /\ RecordModel.recordTypeApplicationData = gen_recordTypeApplicationData
+   /\ N.of_nat RecordModel.tcpMSSEstimate = gen_tcpMSSEstimate
+   /\ RecordModel.recordSizeBoostThreshold = gen_recordSizeBoostThreshold)
+  /\ (forall v, explicit_iv_version v =
+                (cmp_op gen_explicitIVVersOp v gen_explicitIVVersBound
+                 || cmp_op gen_explicitIVAlsoOp v gen_explicitIVAlsoBound)%bool).
+Proof. split; [exact record_constants_tie|exact explicit_iv_condition]. Qed.
+Print Assumptions C06_record_constants_tie.
+
+(* Finished: verify_data = the first finishedVerifyLength (12) bytes of PRF(master secret, finished label, hash) *)
+Theorem C06_finished_is_prf :
+  forall (hmac : list N -> list N -> list N) hl, 1 <= hl -> (forall k m, length (hmac k m) = hl) ->
+  forall fuel client ms h, 12 <= fuel ->
+    finishedSum_bytes hmac fuel client ms h =
+    Ok (PRF_spec hmac 12 ms (if client then gen_clientFinishedLabel_bytes else gen_serverFinishedLabel_bytes) h).
+Proof. exact finishedSum_is_prf. Qed.
+Print Assumptions C06_finished_is_prf.
+
 (* ---------- non-vacuity ---------------------------------------------------------------------------- *)
 Open Scope N_scope.
-(* the product contains completing and failing configurations (10 240 of 190 080 are allowed) *)
-Example C06_product_size : count (fun _ => true) = 190080 /\ count policy_allows = 10240.
+(* the product contains completing and failing configurations (10 960 of 221 760 are allowed) *)
+Example C06_product_size : count (fun _ => true) = 221760 /\ count policy_allows = 10960.
 Proof. exact product_size. Qed.
 
 Definition ex_gm_cbc : acfg := mkA SGM CG (Some [0xe013]) None false 4 1 false true true.
@@ -173,7 +248,7 @@ Proof. vm_compute. intuition. Qed.
 Example C06_app_data_example :
   let seal := fun (s : N) (p : list N) => s :: p in
   let open := fun (s : N) (r : list N) => match r with x :: p => if N.eqb x s then Some p else None | [] => None end in
-  match write_all true (fun i => 2 + i)%nat 0 [[1; 2; 3; 4; 5; 6; 7]; []; [8]; [9; 10]] with
+  match write_all (write_splits gen_VersionGMSSL true) (fun i => 2 + i)%nat 0 [[1; 2; 3; 4; 5; 6; 7]; []; [8]; [9; 10]] with
   | Ok frs => frs = [[1]; [2; 3; 4]; [5; 6; 7]; [8]; [9]; [10]]
               /\ read_all open (mkRd [] (seal_all seal 5 frs) 5) [2; 1; 1; 9; 1; 1; 1; 1; 1; 4]%nat = Ok [1; 2; 3; 4; 5; 6; 7; 8; 9; 10]
   | _ => False
@@ -190,6 +265,15 @@ Example C06_run_example_client_auth :
      | _ => False
      end
   /\ map (@r_cls term_tag) (reconnect_log (mkA SGM CG None None false 1 1 false true false)) = [Full; Resumed; Resumed].
+Proof. vm_compute. intuition. Qed.
+
+(* preference: client [GCM; CBC], server [CBC; GCM]: the client's order wins unless the server prefers its own *)
+Example C06_preference_example :
+  match honest_run (mkA SGM CG (Some [0xe053; 0xe013]) (Some [0xe013; 0xe053]) false 0 0 false false true),
+        honest_run (mkA SGM CG (Some [0xe053; 0xe013]) (Some [0xe013; 0xe053]) true 0 0 false false true) with
+  | (Done c1, _), (Done c2, _) => res_suite c1 = 0xe053 /\ res_suite c2 = 0xe013
+  | _, _ => False
+  end.
 Proof. vm_compute. intuition. Qed.
 
 Example C06_key_slices_example :
